@@ -100,3 +100,16 @@ reg(Spec(
 
 for _p in ("C05", "C07"):
     sshd(_p)
+
+reg(Spec(
+    "C03", "Props/C03.v", harness="tracker", overlay=TRACKER_OVERLAY, race=True,
+    args_quick=["-mode", "conc", "-n", "12"],
+    args_thorough=["-mode", "conc", "-n", "150"],
+    args_search=["-mode", "conc", "-n", "40"],
+    assumptions=TRACKER_ASSUME + [
+        "one GenericSyncMap method call = one critical section; nested acquisition (Store(sessions) inside WithLockedValueDo(parked)) is modelled as one block",
+        "schedules are forced at the VerifPoint hooks (just before each lock acquisition): exactly the granularity of the model's blocks",
+        "data-race freedom is checked by the Go race detector on every explored schedule, not proved",
+    ],
+    modelled=TRACKER_MODELLED + ["internal/common/genericsyncmap.go (one method = one atomic block)"],
+))
